@@ -12,10 +12,10 @@ namespace Replicon.Srv
 
 /-- the server state right before `send_replication` in a frame of a running server -/
 def preRun (s : Server) (ticked : Bool) (ms : Nat) : Server :=
-  let ms := min ms 250
+  let ms := s.frameMs ms
   let acc := s.timerAcc + ms
   let fired := decide (acc ≥ s.timeout) && decide (s.timeout > 0)
-  let s := { s with elapsed := s.elapsed + ms, timerAcc := if fired then acc % s.timeout else acc }
+  let s := { s with elapsed := s.elapsed + ms, timerAcc := if fired then acc % s.timeout else acc, timeStarted := true }
   let s := { s with lastRunning := true }
   let s := { s with clients := s.clients.map fun (c, cl) => (c, Cli.processAcks cl) }
   let s := if fired then s.cleanupAcks (s.elapsed - s.timeout) else s
